@@ -35,7 +35,7 @@ Proof.
     case_bool_decide as Ek; [|contradiction Hk; reflexivity].
     apply set_key_iget; [exact HB|]. rewrite services_papply in Hk.
     destruct p; try (contradiction Hk; reflexivity).
-    + destruct (decide (k = (n0, sid))) as [->|Hne]; [cbn in Ek; subst; cbn [set_keys]; inl|].
+    + destruct (decide (k = (n0, sid))) as [->|Hne]; [cbn in Ek; subst; cbn [set_keys]; apply elem_of_app; left; inl|].
       rewrite lookup_insert_ne in Hk by congruence. contradiction Hk; reflexivity.
     + destruct (decide (k = (n0, sid))) as [->|Hne].
       * cbn in Ek. subst. cbn [set_keys]. destruct (services s !! (n, sid)) eqn:E; [apply elem_of_app; left; inl|].
@@ -66,6 +66,9 @@ Proof.
     (* node.<n> is only deleted together with the node row *)
     exfalso. destruct p; cbn in Hd; try (inversion Hd; fail).
     + apply elem_of_list_singleton, k_node_inj in Hd. subst. rewrite nodes_papply, lookup_delete in En'. discriminate.
+    + destruct (services s !! (n0, sid)) as [o|]; [|inversion Hd].
+      destruct (bool_decide (sv_name o = sv_name x0)); [inversion Hd|]. destruct (bool_decide _); [|inversion Hd].
+      apply elem_of_list_singleton in Hd. symmetry in Hd. revert Hd. apply k_svc_node.
     + destruct (services s !! (n0, sid)); [|inversion Hd]. destruct (bool_decide _); [|inversion Hd].
       apply elem_of_list_singleton in Hd. symmetry in Hd. revert Hd. apply k_svc_node.
   - destruct (nodes (papply i p s) !! n) as [x'|] eqn:En'; [destruct Hn as [Hn _]; destruct Hn; [eexists; reflexivity|discriminate]|].
@@ -226,10 +229,10 @@ Lemma svcs_named_nonempty name (s : st) k sv : svcs_named name s !! k = Some sv 
 Proof. intros Hk He. rewrite He, lookup_empty in Hk. discriminate. Qed.
 
 Lemma J_changed i p s name :
-  IdxBnd i s -> Coherent s -> pvalid i p s -> psafe p s ->
+  IdxBnd i s -> pvalid i p s -> psafe p s ->
   J name s <> J name (papply i p s) -> Post name i (papply i p s).
 Proof.
-  intros HB HC Hv Hs Hne.
+  intros HB Hv Hs Hne.
   destruct (map_neq_witness _ _ Hne) as [[n sid] Hk]. rewrite !J_lookup in Hk. cbn [fst snd] in Hk.
   assert (Hidx : forall k, k ∈ set_keys p s -> index (papply i p s) !! k = Some i).
   { intros k Hin. rewrite index_papply by exact HB. unfold papply_idx. rewrite bool_decide_eq_true_2 by exact Hin. reflexivity. }
@@ -255,19 +258,38 @@ Proof.
     exfalso. assert (svcs_of_node n0 s !! (n0, sid) = Some sv) as Hin.
     { rewrite svcs_of_node_lookup. cbn. rewrite bool_decide_eq_true_2 by reflexivity. exact Esv. }
     rewrite Hv, lookup_empty in Hin. discriminate.
-  - (* PSvcPut *)
-    destruct Hs as [Hs1 Hs2].
+  - (* PSvcPut: the new name is bumped; a name the id leaves is bumped or goes extinct *)
     destruct (decide ((n, sid) = (n0, sid0))) as [Heq|Hneq].
     2: { exfalso. apply Hk. rewrite !svcs_named_lookup, ES, lookup_insert_ne by congruence.
          unfold checks_for. rewrite EC, EN. reflexivity. }
     injection Heq as -> ->.
-    assert (Hnm : sv_name x = name).
-    { destruct (decide (sv_name x = name)) as [|Hx]; [assumption|]. exfalso. apply Hk.
-      rewrite !svcs_named_lookup, ES, lookup_insert. rewrite (bool_decide_eq_false_2 _ Hx).
-      destruct (services s !! (n0, sid0)) as [o|] eqn:Eo; [|reflexivity].
-      rewrite (Hs1 o eq_refl). rewrite (bool_decide_eq_false_2 _ Hx). reflexivity. }
-    apply (Hleft x); [rewrite svcs_named_lookup, ES, lookup_insert, bool_decide_eq_true_2 by exact Hnm; reflexivity|].
-    cbn [set_keys]. rewrite Hnm. inl.
+    destruct (decide (sv_name x = name)) as [Hnm|Hnm].
+    { apply (Hleft x); [rewrite svcs_named_lookup, ES, lookup_insert, bool_decide_eq_true_2 by exact Hnm; reflexivity|].
+      cbn [set_keys]. rewrite Hnm. apply elem_of_app; left; inl. }
+    (* the new row is not named [name]: the old one was *)
+    rewrite !svcs_named_lookup, ES, lookup_insert in Hk. rewrite (bool_decide_eq_false_2 _ Hnm) in Hk.
+    destruct (services s !! (n0, sid0)) as [o|] eqn:Eo; [|contradiction Hk; reflexivity].
+    case_bool_decide as Hon; [|contradiction Hk; reflexivity]. subst name.
+    assert (Hdiff : sv_name o <> sv_name x) by congruence.
+    assert (Hrem : svcs_named (sv_name o) (papply i (PSvcPut n0 sid0 x) s) =
+                   svcs_named (sv_name o) (s <| dt; services ::= <[(n0, sid0) := x]> |>)).
+    { apply svcs_named_dt. rewrite ES. reflexivity. }
+    unfold Post. rewrite Hrem.
+    destruct (decide (svcs_named (sv_name o) (s <| dt; services ::= <[(n0, sid0) := x]> |>) = ∅)) as [He|Hne'].
+    + right. split; [exact He|]. rewrite !index_papply by exact HB. unfold papply_idx. cbn [set_keys del_keys].
+      rewrite Eo. rewrite !(bool_decide_eq_false_2 _ Hdiff). rewrite !(bool_decide_eq_true_2 _ He). split.
+      * rewrite bool_decide_eq_true_2; [reflexivity|apply elem_of_app; right; inl].
+      * rewrite bool_decide_eq_false_2.
+        2: { pose proof (k_svc_fixed (sv_name o)) as Hf. intros Hin.
+             apply elem_of_app in Hin as [Hin|Hin].
+             - apply elem_of_cons in Hin as [H|Hin]; [revert H; apply Hf; unfold fixed_keys; inl|].
+               apply elem_of_cons in Hin as [H|Hin]; [apply k_svc_inj in H; contradiction|].
+               apply elem_of_cons in Hin as [H|Hin]; [revert H; apply Hf; unfold fixed_keys; inl|].
+               apply elem_of_list_singleton in Hin. revert Hin. apply k_svc_node.
+             - apply elem_of_list_singleton in Hin. revert Hin. apply Hf. inl. }
+        rewrite bool_decide_eq_true_2 by inl. reflexivity.
+    + left. split; [|exact Hne']. apply Hidx. cbn [set_keys]. rewrite Eo. rewrite (bool_decide_eq_false_2 _ Hdiff).
+      rewrite (bool_decide_eq_false_2 _ Hne'). apply elem_of_app; right; inl.
   - (* PSvcDel *)
     destruct (decide ((n, sid) = (n0, sid0))) as [Heq|Hneq].
     2: { exfalso. apply Hk. rewrite !svcs_named_lookup, ES, lookup_delete_ne by congruence.
@@ -305,17 +327,28 @@ Proof.
     destruct (map_neq_witness _ _ Hcf) as [[n' cid'] Hck]. rewrite !checks_for_lookup, EC in Hck. cbn [fst] in Hck.
     destruct (decide ((n', cid') = (n0, cid))) as [Heq|Hneq]; [|rewrite lookup_insert_ne in Hck by congruence; contradiction Hck; reflexivity].
     injection Heq as -> ->. rewrite lookup_insert in Hck.
-    assert (Hx : n0 = n /\ (c_svc x = "" \/ c_svc x = sid)).
-    { case_bool_decide as Hb; [exact Hb|].
-      destruct (checks s !! (n0, cid)) as [o|] eqn:Eo; [|contradiction Hck; reflexivity].
-      rewrite (Hs o eq_refl) in Hck. rewrite (bool_decide_eq_false_2 _ Hb) in Hck. contradiction Hck; reflexivity. }
-    destruct Hx as [-> Hx]. cbn [set_keys].
-    destruct (decide (c_svc x = "")) as [He|Hne'].
-    + rewrite (bool_decide_eq_true_2 _ He). subst name. apply elem_of_list_further, elem_of_list_fmap_1.
-      exact (name_in_node_names _ _ _ _ Esv).
-    + rewrite (bool_decide_eq_false_2 _ Hne'). destruct Hx as [|Hx]; [contradiction|].
-      destruct (Hv Hne') as (sv' & Esv' & Hnm). rewrite Hx, Esv in Esv'. injection Esv' as <-.
-      rewrite <- Hnm, En. inl.
+    assert (Hn : n0 = n).
+    { destruct (checks s !! (n0, cid)) as [o|]; repeat case_bool_decide; try tauto; contradiction Hck; reflexivity. }
+    subst n0. cbn [set_keys].
+    destruct (decide (c_svc x = "" \/ c_svc x = sid)) as [Hx|Hx].
+    + (* the written row belongs to the instance: its own bump *)
+      apply elem_of_list_further, elem_of_app. left.
+      destruct (decide (c_svc x = "")) as [He|Hne'].
+      * rewrite (bool_decide_eq_true_2 _ He). subst name. apply elem_of_list_fmap_1. exact (name_in_node_names _ _ _ _ Esv).
+      * rewrite (bool_decide_eq_false_2 _ Hne'). destruct Hx as [|Hx]; [contradiction|].
+        destruct (Hv Hne') as (sv' & Esv' & Hnm). rewrite Hx, Esv in Esv'. injection Esv' as <-.
+        rewrite <- Hnm, En. inl.
+    + (* only the replaced row belonged to it: the check leaves this instance *)
+      rewrite (bool_decide_eq_false_2 (n = n /\ _)) in Hck by tauto.
+      destruct (checks s !! (n, cid)) as [o|] eqn:Eo; [|contradiction Hck; reflexivity].
+      case_bool_decide as Ho; [|contradiction Hck; reflexivity]. destruct Ho as [_ Ho].
+      assert (Hd : c_svc o <> c_svc x) by (intros E; apply Hx; rewrite <- E; exact Ho).
+      apply elem_of_list_further, elem_of_app. right. rewrite (bool_decide_eq_false_2 _ Hd).
+      destruct (decide (c_svc o = "")) as [He|Hne'].
+      * rewrite (bool_decide_eq_true_2 _ He). subst name. apply elem_of_list_fmap_1. exact (name_in_node_names _ _ _ _ Esv).
+      * rewrite (bool_decide_eq_false_2 _ Hne'). destruct Ho as [|Ho]; [contradiction|].
+        assert (Esv' : services s !! (n, c_svc o) = Some sv) by (rewrite Ho; exact Esv).
+        rewrite <- (Hs o sv eq_refl Hd Hne' Esv'), En. inl.
   - (* PChkDel *)
     rewrite !svcs_named_lookup, ES in Hk.
     destruct (services s !! (n, sid)) as [sv|] eqn:Esv; [|contradiction Hk; reflexivity].
@@ -333,8 +366,9 @@ Proof.
     + rewrite (bool_decide_eq_true_2 _ He). subst name. do 2 apply elem_of_list_further. apply elem_of_list_fmap_1.
       exact (name_in_node_names _ _ _ _ Esv).
     + rewrite (bool_decide_eq_false_2 _ Hne'). destruct Hb as [|Hb]; [contradiction|].
-      pose proof (HC n cid o sv Eo Hne') as Hco. rewrite Hb in Hco. specialize (Hco Esv).
-      rewrite <- Hco, En. inl.
+      rewrite Hb, Esv. destruct (decide (sv_name sv = c_svcname o)) as [Hco|Hco].
+      * rewrite <- Hco, En. inl.
+      * rewrite (bool_decide_eq_false_2 _ Hco), En. inl.
 Qed.
 
 Lemma J_same_named name s s' : J name s = J name s' -> svcs_named name s = svcs_named name s'.
@@ -352,6 +386,11 @@ Proof.
   assert (Hdel : k_svc name ∈ del_keys p s -> svcs_named name s <> ∅ /\ svcs_named name (papply i p s) = ∅).
   { intros Hin. destruct p; cbn in Hin; try (inversion Hin; fail).
     - apply elem_of_list_singleton in Hin. exfalso. revert Hin. apply k_svc_node.
+    - destruct (services s !! (n, sid)) as [o|] eqn:Eo; [|inversion Hin].
+      destruct (bool_decide (sv_name o = sv_name x)); [inversion Hin|].
+      case_bool_decide as He; [|inversion Hin]. apply elem_of_list_singleton, k_svc_inj in Hin. subst name. split.
+      + eapply (svcs_named_nonempty _ _ (n, sid) o). rewrite svcs_named_lookup, Eo, bool_decide_eq_true_2 by reflexivity. reflexivity.
+      + rewrite <- He. apply svcs_named_dt. rewrite services_papply. reflexivity.
     - destruct (services s !! (n, sid)) as [x|] eqn:Ex; [|inversion Hin].
       case_bool_decide as He; [|inversion Hin]. apply elem_of_list_singleton, k_svc_inj in Hin. subst name. split.
       + eapply (svcs_named_nonempty _ _ (n, sid) x). rewrite svcs_named_lookup, Ex, bool_decide_eq_true_2 by reflexivity. reflexivity.
@@ -379,19 +418,19 @@ Proof.
 Qed.
 
 Lemma svc_changed i p s name wc q :
-  IdxBnd i s -> Coherent s -> pvalid i p s -> psafe p s -> svcq name wc q ->
+  IdxBnd i s -> pvalid i p s -> psafe p s -> svcq name wc q ->
   res q s <> res q (papply i p s) -> idx q (papply i p s) = i.
 Proof.
-  intros HB HC Hv Hs Hq Hc. rewrite (svcq_idx _ _ _ _ Hq). apply Post_sidx.
+  intros HB Hv Hs Hq Hc. rewrite (svcq_idx _ _ _ _ Hq). apply Post_sidx.
   apply J_changed; try assumption. intros HJ. apply Hc. eapply svcq_res; eassumption.
 Qed.
 
 Lemma svc_mono i p s name wc q :
-  IdxBnd i s -> Coherent s -> pvalid i p s -> psafe p s -> svcq name wc q ->
+  IdxBnd i s -> pvalid i p s -> psafe p s -> svcq name wc q ->
   idx q s <= idx q (papply i p s).
 Proof.
-  intros HB HC Hv Hs Hq. rewrite !(svcq_idx _ _ _ _ Hq).
+  intros HB Hv Hs Hq. rewrite !(svcq_idx _ _ _ _ Hq).
   destruct (decide (J name s = J name (papply i p s))) as [HJ|HJ].
   - apply sidx_unchanged; assumption.
-  - rewrite (Post_sidx _ _ _ _ (J_changed i p s name HB HC Hv Hs HJ)). apply sidx_le, HB.
+  - rewrite (Post_sidx _ _ _ _ (J_changed i p s name HB Hv Hs HJ)). apply sidx_le, HB.
 Qed.
